@@ -58,9 +58,28 @@ def connecting_functions(chk: Check) -> list[FunctionInfo]:
     ci = chk.proj.cls(SESSION)
     out = []
     for fi in ci.methods.values():
-        if any(method_call(c) and method_call(c)[1] == "create_connection" for c in calls(fi.node)):
+        # also when the connect sits in a nested helper of the method
+        if any(isinstance(c, ast.Call) and method_call(c) and method_call(c)[1] == "create_connection" for c in ast.walk(fi.node)):
             out.append(fi)
     return out
+
+
+def _conn_call(n, fi) -> ast.Call:
+    """The create_connection call behind a connecting statement: in the
+    statement itself or in the nested helper it calls."""
+    for c in calls(n.ast):
+        if method_call(c) and method_call(c)[1] == "create_connection":
+            return c
+    return next(c for c in ast.walk(fi.node) if isinstance(c, ast.Call) and method_call(c) and method_call(c)[1] == "create_connection")
+
+
+def _nested_connectors(fi) -> set[str]:
+    """Names of functions nested in `fi` that open the connection."""
+    return {
+        fd.name for fd in ast.walk(fi.node)
+        if isinstance(fd, (ast.FunctionDef, ast.AsyncFunctionDef)) and fd is not fi.node
+        and any(isinstance(c, ast.Call) and method_call(c) and method_call(c)[1] == "create_connection" for c in ast.walk(fd))
+    }
 
 
 def verify_tuples(chk: Check) -> list[tuple[bool, str]]:
@@ -147,7 +166,12 @@ def _wait_nodes(g):
 
 
 def _conn_nodes(g):
-    return [n for n in g.nodes if n.ast is not None and n.kind == "stmt" and any(method_call(c) and method_call(c)[1] == "create_connection" for c in calls(n.ast))]
+    nested = _nested_connectors(g.entry.func) if g.entry.func is not None else set()
+    return [
+        n for n in g.nodes
+        if n.ast is not None and n.kind == "stmt" and not isinstance(n.ast, (ast.FunctionDef, ast.AsyncFunctionDef))
+        and any((method_call(c) and method_call(c)[1] == "create_connection") or (isinstance(c.func, ast.Name) and c.func.id in nested) for c in calls(n.ast))
+    ]
 
 
 def _verify_nodes(g):
@@ -342,6 +366,24 @@ def rule_t8(chk: Check, funcs) -> None:
         chk.ob("T8", f"{fi.key}: verify..trust has no suspension point", ok, "serialised by a lock" if locked else "", evals=len(ver) + len(trs))
 
 
+def _impure(fi) -> str:
+    """Non-empty description if the function reads or writes state that
+    outlives the call (module-level container, global, cache decorator)."""
+    decos = [d for d in fi.node.decorator_list if "cache" in norm(d)]
+    if decos:
+        return norm(decos[0])
+    for x in walk(fi.node):
+        if isinstance(x, (ast.Global, ast.Nonlocal)):
+            return norm(x)
+    local = {t.id for st in walk(fi.node) if isinstance(st, (ast.Assign, ast.AnnAssign)) for t in (st.targets if isinstance(st, ast.Assign) else [st.target]) if isinstance(t, ast.Name)} | set(fi.params)
+    for x in walk(fi.node):
+        if isinstance(x, ast.Subscript) and isinstance(x.value, ast.Name) and x.value.id not in local and x.value.id in fi.module.constants:
+            return norm(x)
+        if isinstance(x, ast.Call) and method_call(x) and method_call(x)[1] in ("get", "setdefault", "pop", "clear", "update", "add", "append") and isinstance(method_call(x)[0], ast.Name) and method_call(x)[0].id not in local and method_call(x)[0].id in fi.module.constants and method_call(x)[0].id.startswith("_"):
+            return norm(x)
+    return ""
+
+
 def fingerprint_definition(chk: Check, R: str) -> None:
     """The certificate fingerprint is a pure function of the certificate handed in:
     sha256 over its DER encoding, full hex digest, no state kept between calls."""
@@ -381,6 +423,20 @@ def fingerprint_definition(chk: Check, R: str) -> None:
     if not okr:
         chk.finding(R, fi.key, "fingerprint-truncated", "the digest is truncated or reformatted before it is returned", fi.loc())
     chk.ob(R, "full hex digest returned", okr)
+    # the other functions on the identity chain (connection -> certificate object ->
+    # fingerprint) are pure too: a conversion cache keyed by attacker-chosen fields
+    # (issuer, serial number) hands out another peer's certificate object
+    for other in chk.proj.functions.values():
+        if other is fi or other.cls is not None or other.module.name not in ("security.pyopenssl_tls", "security.certificates"):
+            continue
+        anns = " ".join(ast.unparse(a.annotation) for a in other.node.args.args if a.annotation is not None)
+        rets = ast.unparse(other.node.returns) if other.node.returns is not None else ""
+        if not (("X509" in anns or "Connection" in anns) and ("Certificate" in rets or "X509" in rets)):
+            continue
+        why = _impure(other)
+        if why:
+            chk.finding(R, other.key, f"identity-stateful:{why[:40]}", f"`{other.node.name}` turns the peer's certificate into the object that is fingerprinted and keeps state between calls (`{why}`): a certificate that copies another one's issuer and serial number is converted to that other certificate, and is admitted under its fingerprint", other.loc())
+        chk.ob(R, f"{other.key}: pure conversion on the identity chain", not why)
     # no memoisation / module state: the result depends on this certificate only
     stateful = [x for x in walk(fi.node) if isinstance(x, (ast.Global, ast.Nonlocal))]
     mod_names = set(fi.module.constants) | {n for n in getattr(fi.module, "globals", [])}
@@ -590,7 +646,7 @@ def rule_t6(chk: Check) -> None:
     d2 = Defs(g2)
     ok2 = True
     for n in _conn_nodes(g2):
-        call = next(c for c in calls(n.ast) if method_call(c) and method_call(c)[1] == "create_connection")
+        call = _conn_call(n, gs)
         for kw, field in (("host", "hostname"), ("port", "port")):
             v = kwarg(call, kw)
             if v is None or not (isinstance(v, ast.Attribute) and v.attr == field):
@@ -601,7 +657,7 @@ def rule_t6(chk: Check) -> None:
                     ok2 = False
     for n in _verify_nodes(g2):
         call = next(c for c in calls(n.ast) if _store_call(c, "verify"))
-        if [norm(a) for a in _unwrap(call)[1][:2]] != [norm(kwarg(next(c for c in calls(cn.ast) if method_call(c) and method_call(c)[1] == "create_connection"), k)) for cn in _conn_nodes(g2)[:1] for k in ("host", "port")]:
+        if [norm(a) for a in _unwrap(call)[1][:2]] != [norm(kwarg(_conn_call(cn, gs), k)) for cn in _conn_nodes(g2)[:1] for k in ("host", "port")]:
             ok2 = False
     if not ok2:
         chk.finding("T6", gs.key, "verified-endpoint-mismatch", "the host/port that are verified are not the host/port of the URL being connected to", gs.loc())
